@@ -144,12 +144,16 @@ Fixpoint copy_steps (ds : path) (stamp : N) (es : list (path * node)) (fin : res
                     end)
   end.
 
-Definition copy_prog (r : request) (dst : string) (recursive overwrite : bool) : tprog act result response :=
+Definition copy_prog (c : path) (r : request) (dst : string) (recursive overwrite : bool) : tprog act result response :=
   TCall (AChecks (rpath r) dst overwrite) (fun b =>
     match b with
     | RChecks (GOk (ss, n, ds, created)) =>
-      TCall (ARem ds) (fun _ =>
-        copy_steps ds (stamp r) (if recursive then walk n [] else [([], n)]) (created_resp created))
+      (* the destination the checks return lies below the client's collection
+         (ConcServeProofs.checks_below); the guard only makes that visible *)
+      if nonempty_below c ds then
+        TCall (ARem ds) (fun _ =>
+          copy_steps ds (stamp r) (if recursive then walk n [] else [([], n)]) (created_resp created))
+      else TRet (err_resp {| ecode := 500; eleak := false |})
     | RChecks (GErr e) => TRet (err_resp e)
     | _ => TRet (err_resp {| ecode := 500; eleak := false |})
     end).
@@ -285,7 +289,7 @@ Definition workload_ok (root : path) (s : option node) (cs : list sclient) : boo
                     forallb (fun o => req_of_client (sc_coll c) (req_of (sc_coll c) o)) (sc_ops c)) cs &&
   sorted_otree s.
 
-Fixpoint answer_eqb (a b : answer) : bool :=
+Definition answer_eqb (a b : answer) : bool :=
   match a, b with
   | AnsStatus x, AnsStatus y => N.eqb x y
   | AnsData x s, AnsData y t => N.eqb x y && String.eqb s t
